@@ -84,7 +84,7 @@ func ruleMergeByName(c *core.Ctx, rule string, fn *ssa.Function, withMult bool) 
 			for _, b := range fn.Blocks {
 				for _, in := range b.Instrs {
 					ci, ok := in.(ssa.CallInstruction)
-					if !ok || ci.Common().StaticCallee() != sm || len(ci.Common().Args) != 3 {
+					if !ok || core.Callee(ci.Common()) != sm || len(ci.Common().Args) != 3 {
 						continue
 					}
 					k, isC := ci.Common().Args[2].(*ssa.Const)
@@ -206,7 +206,7 @@ func ruleMergeByName(c *core.Ctx, rule string, fn *ssa.Function, withMult bool) 
 		return sameElem(x, nameV, "Name", val, "Value")
 	}
 	// one new element enters the list: through Elements.Add, or through append(list, Element{name, value})
-	onAdd := func(x *absint.Exec, s *absint.State, at token.Pos, list, nameV, valV absint.Value) {
+	onAdd := func(x *absint.Exec, s *absint.State, at token.Pos, list, nameV, valV absint.Value, viaPtr bool) {
 		effects["add"]++
 		if s.Data["exists"] != "F" {
 			report("Add is reached with exists=%q: a name already present would be listed twice (%s)", s.Data["exists"], c.P.Pos(at))
@@ -217,14 +217,11 @@ func ruleMergeByName(c *core.Ctx, rule string, fn *ssa.Function, withMult bool) 
 		s.SetData("eff", "1")
 		if s.Data["posmap"] != "" {
 			var cur absint.Value = list
-			if _, isPtr := list.(absint.Ptr); isPtr {
-				cur = x.Load(s, list, nil)
+			if _, isPtr := list.(absint.Ptr); isPtr || viaPtr {
+				cur = x.Load(s, list, nil) // the receiver of Add is a pointer to the list, also when it is a parameter
 			}
-			want := absint.NewTerm("len", cur).Key()
-			if t, ok := cur.(*absint.Term); ok && t.Op == "make" && len(t.Args) == 2 {
-				want = t.Args[1].Key() // the engine folds len(make(T, n)) to n
-			}
-			if s.Data["pos"] != want {
+			want := lenKeyOf(x, cur)
+			if s.Data["pos"] != want && s.Data["pos"] != absint.NewTerm("len", cur).Key() {
 				report("the position recorded for a new name is %s, not the length of the list before the Add (%s): later occurrences of the name accumulate into another element's slot (%s)", s.Data["pos"], want, c.P.Pos(at))
 			}
 		}
@@ -262,14 +259,46 @@ func ruleMergeByName(c *core.Ctx, rule string, fn *ssa.Function, withMult bool) 
 			report("the element appended to the list could not be read (%s)", c.P.Pos(in.Pos()))
 			return
 		}
-		onAdd(x, s, in.Pos(), args[0], nameV, valV)
+		onAdd(x, s, in.Pos(), args[0], nameV, valV, false)
 	}
 	x.Hooks.Call = func(x *absint.Exec, s *absint.State, site ssa.CallInstruction, callee *ssa.Function, fnv absint.Value, args []absint.Value) (absint.Value, bool) {
+		// a constructor that merges (NewLogNodeFromElements) hands on the merged list: the list it was given may be
+		// passed on as it is only where it cannot hold two entries
+		if fn.Signature.Recv() == nil && callee != nil && callee != fn && len(s.Frames) == 1 {
+			for _, prm := range fn.Params {
+				if !strings.HasSuffix(prm.Type().String(), ".Elements") {
+					continue
+				}
+				raw := absint.Sym{Name: prm.Name()}
+				for _, a := range args {
+					if a.Key() != raw.Key() {
+						continue
+					}
+					lenKey := absint.NewTerm("len", raw).Key()
+					short := false
+					if o := x.OrdOutcomes(s, lenKey, "c:2"); len(o) == 1 && o[0] == "<" {
+						short = true
+					}
+					if o := x.OrdOutcomes(s, lenKey, "c:1"); len(o) > 0 && !strings.Contains(strings.Join(o, ""), ">") {
+						short = true
+					}
+					if o := x.OrdOutcomes(s, lenKey, "c:0"); len(o) == 1 && o[0] == "=" {
+						short = true
+					}
+					if !short {
+						report("the list the function was given is handed to %s unmerged on a path where it may hold two or more entries (%s): a food logged twice that day keeps two entries (%s)", callee.Name(), x.Valuation(s), c.P.Pos(site.Pos()))
+					}
+				}
+			}
+		}
 		switch {
 		case isMethod(callee, core.LibPath, "Elements", "Index") && len(args) == 2:
 			return indexStub(x, s, site, args), true
+		case callee != nil && c.P.InScope(callee) && isIndexBuilder(c, callee):
+			// positions(list): the map a linear scan would give (checked on its own), kept up to date from here on
+			return x.Fresh(s, "map:built"), true
 		case isMethod(callee, core.LibPath, "Elements", "Add") && len(args) == 3:
-			onAdd(x, s, site.Pos(), args[0], args[1], args[2])
+			onAdd(x, s, site.Pos(), args[0], args[1], args[2], true)
 			return absint.Const{}, true
 		case false:
 			effects["add"]++
@@ -282,10 +311,7 @@ func ruleMergeByName(c *core.Ctx, rule string, fn *ssa.Function, withMult bool) 
 			s.SetData("eff", "1")
 			if s.Data["posmap"] != "" {
 				cur := x.Load(s, args[0], nil)
-				want := absint.NewTerm("len", cur).Key()
-				if t, ok := cur.(*absint.Term); ok && t.Op == "make" && len(t.Args) == 2 {
-					want = t.Args[1].Key() // the engine folds len(make(T, n)) to n
-				}
+				want := lenKeyOf(x, cur)
 				if s.Data["pos"] != want {
 					report("the position recorded for a new name is %s, not the length of the list before the Add (%s): later occurrences of the name accumulate into another element's slot (%s)", s.Data["pos"], want, c.P.Pos(site.Pos()))
 				}
@@ -552,4 +578,72 @@ func ownListSSA(v, dst ssa.Value, seen map[ssa.Value]bool) bool {
 		}
 	}
 	return false
+}
+
+// lenKeyOf: the key of len(v) as the engine computes it (it folds the length of make(T, n) and of a whole-array
+// slice such as an empty literal).
+func lenKeyOf(x *absint.Exec, v absint.Value) string {
+	if t, ok := v.(*absint.Term); ok {
+		if t.Op == "make" && len(t.Args) == 2 {
+			return t.Args[1].Key()
+		}
+		if t.Op == "slice" && len(t.Args) == 3 && t.Args[1].Key() == "zero" && t.Args[2].Key() == "zero" {
+			if p, ok := t.Args[0].(absint.Ptr); ok {
+				if n, known := x.ArrayLen(p.Loc); known {
+					return absint.Const{V: constant.MakeInt64(n)}.Key()
+				}
+			}
+		}
+	}
+	return absint.NewTerm("len", v).Key()
+}
+
+var indexBuilderMemo = map[*ssa.Function]bool{}
+
+// isIndexBuilder: fn takes a list of elements and returns map[string]int, and every entry it records is
+// "name of the element at position i -> i", made only while the name is not in the map yet: the map that
+// Elements.Index would compute (first occurrence wins).
+func isIndexBuilder(c *core.Ctx, fn *ssa.Function) bool {
+	if v, ok := indexBuilderMemo[fn]; ok {
+		return v
+	}
+	indexBuilderMemo[fn] = false
+	if fn.Signature.Results().Len() != 1 || len(fn.Params) != 1 || len(fn.Blocks) == 0 {
+		return false
+	}
+	mt, ok := fn.Signature.Results().At(0).Type().Underlying().(*types.Map)
+	if !ok {
+		return false
+	}
+	if kb, ok := mt.Key().Underlying().(*types.Basic); !ok || kb.Info()&types.IsString == 0 {
+		return false
+	}
+	if vb, ok := mt.Elem().Underlying().(*types.Basic); !ok || vb.Info()&types.IsInteger == 0 {
+		return false
+	}
+	pt := fn.Params[0].Type()
+	if p, ok := pt.Underlying().(*types.Pointer); ok {
+		pt = p.Elem()
+	}
+	if !strings.HasSuffix(pt.String(), ".Elements") {
+		return false
+	}
+	x := newExec(c)
+	good, bad := 0, 0
+	x.Hooks.MapUpdate = func(x *absint.Exec, s *absint.State, in *ssa.MapUpdate, m, k, v absint.Value) {
+		loc := locOf(x, k)
+		wantSuffix := "[" + v.Key() + "]·Name"
+		has := x.Possible(s, "b("+absint.NewTerm("has", m, k).Key()+")")
+		if strings.HasSuffix(loc, wantSuffix) && len(has) == 1 && has[0] == "F" {
+			good++
+		} else {
+			bad++
+		}
+	}
+	x.Run(x.NewState(fn, nil, nil))
+	if len(x.Problems) > 0 || x.Exhausted {
+		return false
+	}
+	indexBuilderMemo[fn] = good > 0 && bad == 0
+	return indexBuilderMemo[fn]
 }
